@@ -128,7 +128,7 @@ Cons(m, g, ev) ==
          /\ ev.obs = g.obs /\ ev.nev = 0
          /\ (g.fl = "spending" => ~ok)
     [] m = "C14_no_trace" -> ev.obs = g.obs /\ ev.nev = 0
-    [] m = "C14_malformed" -> ~yes /\ ~ok
+    [] m = "C14_malformed" -> ~yes /\ (o.op = "enforce" => ~ok)
 
 Holds(m, g, ev) == Ante(m, g, ev) => Cons(m, g, ev)
 
